@@ -1,4 +1,10 @@
 
+(** val negb : bool -> bool **)
+
+let negb = function
+| true -> false
+| false -> true
+
 type nat =
 | O
 | S of nat
@@ -717,3 +723,435 @@ let int_pow_ck fixsq w s b e =
                  else if (&&) s (Z.ltb e Z0)
                       then PVal Z0
                       else pow_loop_ck fixsq (Z.to_nat w) w s (Zpos XH) b e
+
+type atype =
+| AInt
+| AUInt
+| AFloat
+
+type bkind =
+| BNegIntConst
+| BNonNegIntConst
+| BRuntimeSignedInt
+| BRuntimeUnsignedInt
+| BIntegralFloatConst
+| BFloatConst
+| BRuntimeFloat
+
+type rtype =
+| RInt
+| RFloat
+| RSoftComplex
+| ROther
+| RComplex
+| RObj
+
+(** val a_is_int : atype -> bool **)
+
+let a_is_int = function
+| AFloat -> false
+| _ -> true
+
+(** val b_is_int : bkind -> bool **)
+
+let b_is_int = function
+| BIntegralFloatConst -> false
+| BFloatConst -> false
+| BRuntimeFloat -> false
+| _ -> true
+
+(** val doc_allows : bool -> atype -> bkind -> rtype -> bool **)
+
+let doc_allows cpow a b r =
+  if a_is_int a
+  then (match b with
+        | BNegIntConst -> (match r with
+                           | RFloat -> true
+                           | _ -> false)
+        | BNonNegIntConst -> (match r with
+                              | RInt -> true
+                              | _ -> false)
+        | BRuntimeSignedInt ->
+          (match r with
+           | RInt -> cpow
+           | RFloat -> negb cpow
+           | _ -> false)
+        | BRuntimeUnsignedInt -> (match r with
+                                  | RInt -> true
+                                  | _ -> false)
+        | _ ->
+          (match r with
+           | RFloat ->
+             (||) ((||) cpow (match a with
+                              | AUInt -> true
+                              | _ -> false))
+               (match b with
+                | BIntegralFloatConst -> true
+                | _ -> false)
+           | RSoftComplex -> negb cpow
+           | _ -> false))
+  else (match b with
+        | BIntegralFloatConst ->
+          (match r with
+           | RFloat ->
+             (||) ((||) cpow (match a with
+                              | AUInt -> true
+                              | _ -> false))
+               (match b with
+                | BIntegralFloatConst -> true
+                | _ -> false)
+           | RSoftComplex -> negb cpow
+           | _ -> false)
+        | BFloatConst ->
+          (match r with
+           | RFloat ->
+             (||) ((||) cpow (match a with
+                              | AUInt -> true
+                              | _ -> false))
+               (match b with
+                | BIntegralFloatConst -> true
+                | _ -> false)
+           | RSoftComplex -> negb cpow
+           | _ -> false)
+        | BRuntimeFloat ->
+          (match r with
+           | RFloat ->
+             (||) ((||) cpow (match a with
+                              | AUInt -> true
+                              | _ -> false))
+               (match b with
+                | BIntegralFloatConst -> true
+                | _ -> false)
+           | RSoftComplex -> negb cpow
+           | _ -> false)
+        | _ -> (match r with
+                | RFloat -> true
+                | _ -> false))
+
+type cpow3 =
+| CUnset
+| CTrue
+| CFalse
+
+type opnd =
+| OC of atype
+| OComplex
+| OObj
+| OPosFloat
+| OPosIntConst
+
+type ekind =
+| EC of bkind
+| EComplexConst
+| ERuntimeComplex
+| EObj
+
+type dest =
+| DNone
+| DCInt
+| DCFloat
+| DCComplex
+| DPyObj
+| DCastInt
+| DCastFloat
+| DArithInt
+| DArithFloat
+
+(** val eff_cpow : cpow3 -> bool **)
+
+let eff_cpow = function
+| CTrue -> true
+| _ -> false
+
+(** val o_is_c_real : opnd -> bool **)
+
+let o_is_c_real = function
+| OComplex -> false
+| OObj -> false
+| _ -> true
+
+(** val e_is_c_real : ekind -> bool **)
+
+let e_is_c_real = function
+| EC _ -> true
+| _ -> false
+
+(** val o_is_c_int : opnd -> bool **)
+
+let o_is_c_int = function
+| OC a0 -> (match a0 with
+            | AFloat -> false
+            | _ -> true)
+| _ -> false
+
+(** val e_is_c_int : ekind -> bool **)
+
+let e_is_c_int = function
+| EC k -> b_is_int k
+| _ -> false
+
+(** val base_type : opnd -> ekind -> rtype **)
+
+let base_type a b =
+  match a with
+  | OC a' ->
+    (match b with
+     | EC b' -> if (&&) (a_is_int a') (b_is_int b') then RInt else RFloat
+     | EObj -> RObj
+     | _ -> RComplex)
+  | OComplex -> (match b with
+                 | EObj -> RObj
+                 | _ -> RComplex)
+  | OObj -> RObj
+  | OPosFloat -> (match b with
+                  | EC _ -> RFloat
+                  | EObj -> RObj
+                  | _ -> RComplex)
+  | OPosIntConst ->
+    (match b with
+     | EC b' -> if b_is_int b' then RInt else RFloat
+     | EObj -> RObj
+     | _ -> RComplex)
+
+(** val widen : rtype -> rtype **)
+
+let widen r = match r with
+| RInt -> RFloat
+| _ -> r
+
+(** val pow_type : bool -> opnd -> ekind -> rtype **)
+
+let pow_type cpow a b =
+  match base_type a b with
+  | RSoftComplex ->
+    let base = RSoftComplex in
+    (match b with
+     | EC b0 ->
+       (match b0 with
+        | BNegIntConst -> widen base
+        | BRuntimeSignedInt -> if cpow then base else widen base
+        | BFloatConst ->
+          if cpow
+          then base
+          else (match a with
+                | OC a0 -> (match a0 with
+                            | AUInt -> base
+                            | _ -> RSoftComplex)
+                | OComplex -> RSoftComplex
+                | OObj -> RSoftComplex
+                | _ -> base)
+        | BRuntimeFloat ->
+          if cpow
+          then base
+          else (match a with
+                | OC a0 -> (match a0 with
+                            | AUInt -> base
+                            | _ -> RSoftComplex)
+                | OComplex -> RSoftComplex
+                | OObj -> RSoftComplex
+                | _ -> base)
+        | _ -> base)
+     | _ -> base)
+  | RComplex -> RComplex
+  | RObj -> RObj
+  | x ->
+    (match b with
+     | EC b0 ->
+       (match b0 with
+        | BNegIntConst -> widen x
+        | BRuntimeSignedInt -> if cpow then x else widen x
+        | BFloatConst ->
+          if cpow
+          then x
+          else (match a with
+                | OC a0 -> (match a0 with
+                            | AUInt -> x
+                            | _ -> RSoftComplex)
+                | OComplex -> RSoftComplex
+                | OObj -> RSoftComplex
+                | _ -> x)
+        | BRuntimeFloat ->
+          if cpow
+          then x
+          else (match a with
+                | OC a0 -> (match a0 with
+                            | AUInt -> x
+                            | _ -> RSoftComplex)
+                | OComplex -> RSoftComplex
+                | OObj -> RSoftComplex
+                | _ -> x)
+        | _ -> x)
+     | _ -> x)
+
+(** val type_inferred : opnd -> ekind -> bool **)
+
+let type_inferred a b =
+  match base_type a b with
+  | RObj -> false
+  | _ ->
+    (match b with
+     | EC b0 ->
+       (match b0 with
+        | BRuntimeSignedInt -> true
+        | BFloatConst ->
+          (match a with
+           | OC a0 -> (match a0 with
+                       | AUInt -> false
+                       | _ -> true)
+           | _ -> false)
+        | BRuntimeFloat ->
+          (match a with
+           | OC a0 -> (match a0 with
+                       | AUInt -> false
+                       | _ -> true)
+           | _ -> false)
+        | _ -> false)
+     | _ -> false)
+
+(** val is_direct_c_real : dest -> bool **)
+
+let is_direct_c_real = function
+| DCInt -> true
+| DCFloat -> true
+| _ -> false
+
+(** val fallback_fires : cpow3 -> opnd -> ekind -> dest -> bool **)
+
+let fallback_fires c a b d =
+  match c with
+  | CUnset ->
+    (&&) ((&&) (type_inferred a b) (is_direct_c_real d))
+      (match pow_type false a b with
+       | RFloat ->
+         (match d with
+          | DCInt -> (&&) (o_is_c_int a) (e_is_c_int b)
+          | _ -> false)
+       | RSoftComplex -> (&&) (o_is_c_real a) (e_is_c_real b)
+       | _ -> false)
+  | _ -> false
+
+(** val assignable : rtype -> dest -> bool **)
+
+let assignable r = function
+| DCInt -> (match r with
+            | RInt -> true
+            | RObj -> true
+            | _ -> false)
+| DCFloat -> (match r with
+              | ROther -> false
+              | RComplex -> false
+              | _ -> true)
+| _ -> (match r with
+        | ROther -> false
+        | _ -> true)
+
+type outcome = { o_type : rtype; o_rejected : bool; o_warned : bool }
+
+(** val pow_coerced : cpow3 -> opnd -> ekind -> dest -> outcome **)
+
+let pow_coerced c a b d =
+  let fb = fallback_fires c a b d in
+  let r = pow_type ((||) (eff_cpow c) fb) a b in
+  { o_type = r; o_rejected = (negb (assignable r d)); o_warned = fb }
+
+(** val doc_coerced : cpow3 -> opnd -> ekind -> dest -> outcome **)
+
+let doc_coerced c a b d =
+  match c with
+  | CUnset ->
+    let r0 = pow_type false a b in
+    let direct = match d with
+                 | DCInt -> true
+                 | DCFloat -> true
+                 | _ -> false in
+    let c_reals =
+      match a with
+      | OComplex -> false
+      | OObj -> false
+      | _ -> (match b with
+              | EC _ -> true
+              | _ -> false)
+    in
+    let c_ints =
+      match a with
+      | OC a0 ->
+        (match a0 with
+         | AFloat -> false
+         | _ -> (match b with
+                 | EC k -> b_is_int k
+                 | _ -> false))
+      | _ -> false
+    in
+    let differs =
+      negb
+        (match r0 with
+         | RInt -> (match pow_type true a b with
+                    | RInt -> true
+                    | _ -> false)
+         | RFloat ->
+           (match pow_type true a b with
+            | RFloat -> true
+            | _ -> false)
+         | RComplex ->
+           (match pow_type true a b with
+            | RComplex -> true
+            | _ -> false)
+         | RObj -> (match pow_type true a b with
+                    | RObj -> true
+                    | _ -> false)
+         | _ -> false)
+    in
+    let fb =
+      (&&) ((&&) ((&&) direct differs) c_reals)
+        (match r0 with
+         | RFloat -> (match d with
+                      | DCInt -> c_ints
+                      | _ -> false)
+         | RSoftComplex -> true
+         | _ -> false)
+    in
+    let r = if fb then pow_type true a b else r0 in
+    { o_type = r; o_rejected = (negb (assignable r d)); o_warned = fb }
+  | CTrue ->
+    let r = pow_type true a b in
+    { o_type = r; o_rejected = (negb (assignable r d)); o_warned = false }
+  | CFalse ->
+    let r = pow_type false a b in
+    { o_type = r; o_rejected = (negb (assignable r d)); o_warned = false }
+
+type delivery =
+| VInt
+| VFloat
+| VPyReal
+| VPyComplex
+| VTypeError
+| VNoValue
+
+(** val deliver : rtype -> dest -> bool -> delivery **)
+
+let deliver r d real =
+  if negb (assignable r d)
+  then VNoValue
+  else (match r with
+        | RInt -> VInt
+        | RFloat -> VFloat
+        | RSoftComplex ->
+          (match d with
+           | DCInt -> VNoValue
+           | DCFloat -> if real then VPyReal else VTypeError
+           | DCComplex -> VPyComplex
+           | DCastInt -> VNoValue
+           | DCastFloat -> VNoValue
+           | _ -> if real then VPyReal else VPyComplex)
+        | ROther -> VNoValue
+        | RComplex ->
+          (match d with
+           | DCastInt -> VNoValue
+           | DCastFloat -> VNoValue
+           | _ -> VPyComplex)
+        | RObj ->
+          (match d with
+           | DCInt -> if real then VPyReal else VTypeError
+           | DCFloat -> if real then VPyReal else VTypeError
+           | DCComplex -> VPyComplex
+           | _ -> if real then VPyReal else VPyComplex))
